@@ -274,7 +274,7 @@ var profiles = map[string]profile{
 		},
 		plays: func(r *rand.Rand, k int) []PlayOpts {
 			return []PlayOpts{{Order: orders[k%3]}, {Order: "gen", StartEpoch: 2}, {Order: "topo", StartEpoch: 3},
-				{Order: "gen", ResetAfter: 3 + r.Intn(14)}, {Order: orders[(k+1)%3], ResetAfter: 1 + r.Intn(25)}}
+				{Order: "gen", ResetAfter: -1}, {Order: orders[(k+1)%3], ResetAfter: 1 + r.Intn(25)}, {Order: orders[(k+2)%3], ResetAfter: -1}}
 		},
 	},
 	// reference implementation: ties, no-quorums, deep rounds
@@ -361,7 +361,7 @@ func CmdRecord(args []string, seed int64) int {
 				rec.Stats["critical_runs"]++
 				continue
 			}
-			if o.StartEpoch > 1 || o.ResetAfter > 0 {
+			if o.StartEpoch > 1 || o.ResetAfter != 0 {
 				continue
 			}
 			if ref == nil {
